@@ -495,6 +495,25 @@ example : declaredInFunc [⟨[], false⟩, ⟨[(0, 1)], true⟩, ⟨[], true⟩]
       = some (.loc 1) := by decide
 example : ¬ EmitEqResolve (ExportGuard.directCallGuard true) := emit_ne_resolve_witness _ (by decide)
 
+/-! ## the way a macro is reached does not matter -/
+
+/-- **A shown macro call depends on the callee only through the declaration it resolves to**: two
+call sites — in any two environments, under any two names (inline declaration, `import "f"`,
+`import p "f"` + `p.M()`, `import . "f"`, `import "f" for M`, the child's macro seen from a layout) —
+that resolve to the same declaration write the same bytes, in every context, directly shown or
+through a variable, for every engine (whatever its guards: they are functions of the result format
+and the context alone, `Engine.macroGuard : Format → Ctx → Bool`). The harness measures the same on
+the real engine (reach.go: reach form × result format × context × call form against the inline
+twin). -/
+theorem call_depends_on_resolved_macro_only (E : Engine) (R : Nat → Except Err (Format × Bytes))
+    (S : Nat → Except Err Env) (k : Nat) (env env' : Env) (args args' : List (Format × Bytes))
+    (ctx : Ctx) (m m' : Nat) (v : Bool) (cargs : List Bytes) (mv : MacroVal)
+    (h : lookup env m = some mv) (h' : lookup env' m' = some mv) :
+    evalAtom E R S k env args (.call ctx m v cargs) = evalAtom E R S k env' args' (.call ctx m' v cargs) := by
+  cases k with
+  | zero => rfl
+  | succ n => rw [evalAtom_call_eq, evalAtom_call_eq, h, h']
+
 /-! ## non-vacuity: a concrete file set on which the hypotheses hold and every construct is used -/
 
 /-- files: 0 child.html (extends 1, imports 4, declares macro 14 = `M7` (text format, one string
